@@ -7,6 +7,8 @@ Streams (model `Wpull.Warc` vs the real code in ctx.repo):
   blockpos  oracle only: set_length_and_maybe_checksums + write_record with block files (BytesIO, file, temp file,
             GzipFile) handed over at offset 0 / middle / end
   ytdl      oracle only: the real youtube-dl coprocessor Session._write_warc_metadata over fake *.info.json files
+  dedup     oracle only: --warc-dedup: index (LF/CRLF) -> real WARCVisitsTask/read_cdx/URLTable -> revisit records
+  readcdx   read_cdx on one index line vs the model's readCdxLine
   recorder  whole lives of the real WARCRecorder driven through the recorder
             sessions' event methods (see warc_common.py); files read back by an
             independent strict gzip / WARC reader, digests recomputed with hashlib
@@ -331,6 +333,140 @@ def stream_ytdl(ctx, n):
         ctx.sample({'stream': 'ytdl', 'case': cases[0]})
 
 
+# ------------------------------------------------------------------ --warc-dedup: CDX index -> URL table -> revisit records
+def stream_readcdx(ctx, n):
+    """wpull.warc.format.read_cdx on one data line (any terminator, odd spacing) vs the model's readCdxLine."""
+    from wpull.warc.format import read_cdx
+    rng = ctx.subrng('readcdx')
+    keys = ['k%d' % i for i in range(14)]
+    cases = []
+    for _ in range(n):
+        cols = [''.join(rng.choice('abc/:<>-019é\t') for _ in range(rng.choice([0, 1, 3, 8]))) for _ in range(rng.choice([1, 3, 9, 11]))]
+        line = ' '.join(cols)
+        if rng.random() < 0.2:
+            line = rng.choice([' ', '  ', '\t']) + line
+        if rng.random() < 0.2:
+            line += rng.choice([' ', '\t', ' \r'])
+        line += rng.choice(['\n', '\r\n', '\r\n', ''])
+        cases.append(line)
+    replies = ctx.model.ask(['warc readcdx 32 ' + enc(l) for l in cases])
+    for line, rep in zip(cases, replies):
+        data = (' CDX ' + ' '.join(keys) + '\n' + line).encode('utf-8')
+        rows = list(read_cdx(io.BytesIO(data)))
+        real = [rows[0].get(k) for k in keys if k in rows[0]] if rows else None
+        model = [bytes(x).decode('latin-1') if False else ''.join(chr(c) for c in x) for x in
+                 ([] if rep == '~' else [wc.dec(t) for t in rep.split('/')])]
+        ctx.case(('readcdx', line), nontrivial=bool(line.strip()), tags=['readcdx:' + ('crlf' if line.endswith('\r\n') else 'lf' if line.endswith('\n') else 'eof')])
+        if rows and len(rows) == 1:
+            if model[:len(keys)] != real:
+                ctx.disagree('readcdx', {'line': line}, repr(model)[:400], repr(real)[:400])
+            if any('\r' in (c or '') or '\n' in (c or '') for c in real):
+                ctx.fail('cdx-column-with-line-break', 'read_cdx', {'stream': 'readcdx', 'line': line},
+                         'read_cdx returns a column holding CR or LF: %r' % (real,))
+
+
+def gen_dedup(rng):
+    n = rng.choice([1, 2, 3])
+    cfg1 = wc.gen_cfg(rng)
+    cfg1.update(cdx=True, digests=True, revisit=False, appending=False, max_size=rng.choice([None, None, 0, 1500]))
+    sessions = [wc.gen_http_session(rng, i, cfg1) for i in range(n)]
+    cfg2 = wc.gen_cfg(rng)
+    cfg2.update(digests=True, revisit=True, appending=False)
+    return {'cfg1': cfg1, 'sessions': sessions, 'cfg2': cfg2,
+            'eol': rng.choice(['lf', 'crlf', 'crlf', 'crlf-last-line-bare']),
+            'again': [rng.choice(['same', 'same', 'other-body']) for _ in range(n)], 'seed': rng.getrandbits(32)}
+
+
+def check_dedup(ctx, case):
+    """Life 1 writes archive + CDX index; the index (LF or CRLF line ends, as after a pass through a Windows tool) is
+    loaded by the REAL --warc-dedup start-up task (WARCVisitsTask -> read_cdx -> URLTable); life 2 fetches the same
+    documents again with that URL table: revisit records.  Oracle: the C05 oracle on both lives (strict one-line header
+    fields on every record) and WARC-Refers-To = the id of the first life's response record."""
+    import argparse
+    import shutil
+    import tempfile
+    from wpull.application.tasks.warc import WARCVisitsTask
+    from wpull.database.sqltable import URLTable
+    base = os.environ.get('TMPDIR') or tempfile.gettempdir()
+    d1 = tempfile.mkdtemp(prefix='wpull-verif-warcd1-', dir=base)
+    d2 = tempfile.mkdtemp(prefix='wpull-verif-warcd2-', dir=base)
+    fails = []
+    tags = ['dedup:' + case['eol']]
+    try:
+        ops1 = [o for sess in case['sessions'] for o in sess]
+        obs1 = wc.run_real_life(d1, {'cfg': case['cfg1'], 'ops': ops1, 'logs': []}, 'dedup1/%d' % case['seed'])
+        by1, problems1 = wc.parse_life(obs1)
+        f1, ids = wc.oracle_c05(obs1, by1, problems1, {})
+        fails += f1
+        cdx = obs1['after'].get(wc.PREFIX + '.cdx', b'')
+        if case['eol'] == 'crlf':
+            cdx = cdx.replace(b'\n', b'\r\n')
+        elif case['eol'] == 'crlf-last-line-bare':
+            cdx = cdx.replace(b'\n', b'\r\n')[:-2]
+        index = os.path.join(d1, 'index-for-dedup.cdx')
+        with open(index, 'wb') as f:
+            f.write(cdx)
+        table = URLTable()
+        fh = open(index, 'rb')
+        app = argparse.Namespace(args=argparse.Namespace(warc_dedup=fh, local_encoding=None), factory={'URLTable': table})
+        compat.run(WARCVisitsTask().process(app), timeout=60)
+        # the response records of life 1 by (url, payload)
+        # (the visits table keeps ONE visit per URL: the first index line of a URL wins -- INSERT OR IGNORE on the URL)
+        recs_by_id = {r.id: r for name, (start, recs) in by1.items() for r in recs if r.type == b'response'}
+        per_url = {}
+        for ln in obs1['after'].get(wc.PREFIX + '.cdx', b'').split(b'\n')[1:]:
+            cols = ln.split(b' ')
+            r = recs_by_id.get(cols[8]) if len(cols) == 9 else None
+            m = obs1['meta'].get((r.id or b'').decode('latin-1')[10:-1]) if r else None
+            if m:
+                per_url.setdefault(r.get(b'WARC-Target-URI'), (m['full'][m['hdrlen']:], r.id.decode('latin-1')))
+        first = {(u, payload): rid for u, (payload, rid) in per_url.items()}
+        ops2 = []
+        for sess, again in zip(case['sessions'], case['again']):
+            for o in sess:
+                o = dict(o, k=o['k'] + 50)
+                if o['op'] == 'ep':
+                    if again == 'other-body':
+                        o['body'] = o['body'] + b'!changed'
+                        o['cuts'] = []
+                    o['revisit'] = None
+                ops2.append(o)
+        # expectation: same URL and same payload as a response of the index -> revisit referring to it
+        hdr = {}
+        from wpull.protocol.http.request import Request
+        for o in ops2:
+            if o['op'] == 'bq':
+                hdr[o['k']] = [Request(o['url']).url_info.url.encode(), None]
+            elif o['op'] == 'bp':
+                hdr[o['k']][1] = o['header']
+            elif o['op'] == 'ep':
+                o['revisit'] = first.get((hdr[o['k']][0], o['body']))
+                tags.append('dedup:revisit-expected' if o['revisit'] else 'dedup:no-revisit')
+        obs2 = wc.run_real_life(d2, {'cfg': case['cfg2'], 'ops': ops2, 'logs': [], '_url_table': table}, 'dedup2/%d' % case['seed'])
+        if obs2['raised']:
+            r = obs2['raised']
+            fails.append(('recorder-raised', r['where'], '%s(%s) at op %d of the deduplicating life' % (r['type'], r['text'], r['index'])))
+        else:
+            by2, problems2 = wc.parse_life(obs2)
+            f2, ids = wc.oracle_c05(obs2, by2, problems2, ids)
+            fails += f2
+    finally:
+        shutil.rmtree(d1, ignore_errors=True)
+        shutil.rmtree(d2, ignore_errors=True)
+    ctx.case(('dedup', repr(case)), tags=sorted(set(tags)))
+    for kind, where, detail in fails:
+        ctx.fail(kind, where, {'stream': 'dedup', 'dedup': case}, detail + ' [--warc-dedup, index with %s lines]' % case['eol'])
+
+
+def stream_dedup(ctx, n):
+    rng = ctx.subrng('dedup')
+    cases = [gen_dedup(rng) for _ in range(n)]
+    for c in cases:
+        check_dedup(ctx, c)
+    if cases:
+        ctx.sample({'stream': 'dedup', 'eol': cases[0]['eol'], 'again': cases[0]['again']})
+
+
 # ------------------------------------------------------------------ recorder lives
 def stream_recorder(ctx, scenarios, pid=PID):
     outs = []
@@ -361,6 +497,8 @@ def replay(ctx, case, kind=None, where=None):
     elif s == 'client':
         from engines import warc_client
         warc_client.check_exchange(ctx, case['exchange'], ctx.pid)
+    elif s == 'dedup':
+        check_dedup(ctx, case['dedup'])
     elif s == 'blockpos':
         check_blockpos(ctx, case['blockpos'])
     elif s == 'ytdl':
@@ -379,6 +517,8 @@ def run(ctx):
     stream_offset(ctx, ctx.scale(3000, 60000))
     stream_blockpos(ctx, ctx.scale(150, 1200))
     stream_ytdl(ctx, ctx.scale(60, 400))
+    stream_dedup(ctx, ctx.scale(60, 800))
+    stream_readcdx(ctx, ctx.scale(1500, 20000))
     rng = ctx.rng
     stream_recorder(ctx, [wc.gen_scenario(rng) for _ in range(ctx.scale(400, 5000))])
     from engines import warc_client
